@@ -17,6 +17,17 @@ def suspend_part(ctx):
                                  + ([] if ctx.quick else [[["tsusp", "step", "ok"], ["susp"], ["step", "ok"]]])),
                    configs=[(0, 0, NONEC, NONEP), (0, 1, NONEC, NONEP), (1, 0, 0, 0), (0, 0, 1, NONEP)],
                    budget=(5 if ctx.quick else None))
+    # a branch that parks twice (inline done-callback in the timer thread) + the pinned variant of the scheduler lock as a probe
+    executor_sweep(ctx, STRICT["C07"], tag=f"ext_{ctx.pid}", scripts_sets=[[["tsusp", "tsusp", "ok"], ["step", "ok"]]],
+                   configs=[(0, 0, NONEC, NONEP)] + ([] if ctx.quick else [(0, 1, NONEC, NONEP), (1, 0, NONEC, NONEP)]))
+    from checks.executor_common import exec_mc as _mc
+    from lib.tlcrun import MachineryError as _ME, require_ok as _rq, run_tlc as _run
+    mod, cfg = _mc(f"exp_{ctx.pid}_underlock", [["tsusp", "tsusp", "ok"], ["step", "ok"]], 0, 0, NONEC, NONEP, ["NoHang"], resubmit_under_lock=True)
+    res = _run(mod, cfg, f"exp_{ctx.pid}_underlock", timeout_s=900)
+    _rq(res, "Executor.tla probe ResubmitUnderLock=TRUE")
+    ctx.add_tlc(res, "probe: with TimerScheduler._lock held across the resubmission the inline done-callback deadlocks the timer thread (NoHang)")
+    if res.ok or res.violated != "NoHang":
+        raise _ME(f"probe ResubmitUnderLock=TRUE: expected NoHang to fail, got ok={res.ok} violated={res.violated}")
     executor_sweep(ctx, [], tag=f"exl_{ctx.pid}", liveness=True,
                    scripts_sets=[[["tsusp", "ok"], ["susp"]], [["step", "ok"], ["tsusp", "step", "ok"]]],
                    configs=[(0, 0, NONEC, NONEP), (1, 1, NONEC, NONEP)], budget=(1 if ctx.quick else None))
@@ -45,7 +56,12 @@ def suspend_part(ctx):
     Execution(two_timed(1.0), {"seed": 1, "max_inv": 8}).run()
     sites = sorted(ds.LOCK_SITES)
     ctx.notes["lock_sites"] = sites
+    twice = {"nodes": [{"k": "par", "branches": [[{"k": "wait", "s": 1}, {"k": "wait", "s": 1}, {"k": "step"}], [{"k": "step", "dur": 3.0}]]},
+                       {"k": "step"}]}
     for site in sites:
+        for rep in range(4 if ctx.quick else 16):
+            items.append((twice, {"seed": rng.randrange(1 << 30), "max_inv": 8, "api_latency": 0.0, "batcher": {"time": 0.0},
+                                  "slow_holder": site, "strategy": "pct" if rep % 2 else "random"}))
         for d in (0.9, 1.0, 1.1):
             for rep in range(6 if ctx.quick else 24):
                 items.append((two_timed(d), {"seed": rng.randrange(1 << 30), "max_inv": 8, "api_latency": 0.0, "batcher": {"time": 0.0},
